@@ -6,6 +6,7 @@ import (
 	"bufio"
 	crand "crypto/rand"
 	"fmt"
+	"math/big"
 	"strings"
 
 	"github.com/refraction-networking/uquic/internal/ackhandler"
@@ -40,18 +41,21 @@ type smPkt struct {
 }
 
 type smGen struct {
-	r        *u.Rng
-	w        *bufio.Writer
-	v        *ackhandler.VerifC20SPH
-	mds      int64
-	now      int64
-	out      [3][]smPkt // ack-eliciting packets not yet acked, per space (harness bookkeeping)
-	dropped  [3]bool
-	obs      []string
-	trace    []string
-	dist     map[string]int
-	reported map[string]bool
-	sawAny   bool
+	r         *u.Rng
+	w         *bufio.Writer
+	v         *ackhandler.VerifC20SPH
+	mds       int64
+	now       int64
+	out       [3][]smPkt // ack-eliciting packets not yet acked, per space (harness bookkeeping)
+	dropped   [3]bool
+	obs       []string
+	trace     []string
+	dist      map[string]int
+	reported  map[string]bool
+	sawAny    bool
+	lastMode  int   // result of the observe() immediately before a send, -1 otherwise
+	instT     int64 // the instant for which instBytes counts
+	instBytes int64
 }
 
 func (g *smGen) monfail(key, desc string) {
@@ -71,8 +75,13 @@ func (g *smGen) observe() int {
 	g.obs = append(g.obs, u.Pair(u.App("G", u.Z(int64(gate.Tracked)), u.B(gate.AmpLimited), u.Z(int64(gate.NumProbes)), u.Z(int64(gate.PtoMode)),
 		u.Z(gate.BytesInFlight), u.Z(gate.Cwnd), u.B(gate.HasPacingBudget)), u.Z(int64(m))))
 	g.dist[fmt.Sprintf("mode-%d", m)]++
+	g.lastMode = m
 	if m == smSendAny {
 		g.sawAny = true
+		// outside a PTO-probe situation new data is only released while the pacer has budget
+		if gate.NumProbes == 0 && gate.BytesInFlight < gate.Cwnd && !gate.HasPacingBudget {
+			g.monfail("sendmode/any-without-pacing-budget", fmt.Sprintf("SendMode=any at t=%d although the pacer has no budget (HasPacingBudget false; %d bytes already released at this instant, %d in flight, window %d, no probe packet due, ptoMode %d)", g.now, g.instBytes, gate.BytesInFlight, gate.Cwnd, gate.PtoMode))
+		}
 		if gate.BytesInFlight >= gate.Cwnd {
 			g.monfail("sendmode/any-above-window", fmt.Sprintf("SendMode=any with %d bytes in flight >= window %d", gate.BytesInFlight, gate.Cwnd))
 		}
@@ -97,6 +106,7 @@ func (g *smGen) observe() int {
 // window may be cut at most once: cwnd_after >= max(0.7 x cwnd_before, 2 x mds) (1 byte slack
 // for the float conversion).
 func (g *smGen) event(kind string, f func() error) {
+	g.instT = -1 // an ACK / timer event changes window and bandwidth estimate: a new accounting instant
 	before := g.v.Cwnd()
 	err := f()
 	after := g.v.Cwnd()
@@ -116,7 +126,37 @@ func (g *smGen) event(kind string, f func() error) {
 	}
 }
 
+// burstAllowance: what the pacer may release at one instant: max(10 datagrams, 1.25 x cwnd/srtt x 2ms).
+func (g *smGen) burstAllowance() int64 {
+	a := 10 * g.mds
+	srtt := int64(g.v.Rtt.SmoothedRTT())
+	if srtt == 0 {
+		srtt = 1_000_000 // a smoothed RTT of 0 (sub-microsecond samples) counts as the timer granularity, 1ms
+	}
+	if srtt > 0 {
+		x := new(big.Int).Mul(big.NewInt(5*2_000_000), big.NewInt(g.v.Cwnd()))
+		x.Quo(x, big.NewInt(4))
+		x.Quo(x, big.NewInt(srtt))
+		if x.IsInt64() && x.Int64() > a {
+			a = x.Int64()
+		}
+	}
+	return a
+}
+
 func (g *smGen) send(enc int, size int64, eliciting bool) {
+	// bytes released under SendMode=any at one instant never exceed the pacer's burst allowance
+	if g.instT != g.now {
+		g.instT, g.instBytes = g.now, 0
+	}
+	if g.lastMode == smSendAny {
+		g.instBytes += size
+		if al := g.burstAllowance(); g.instBytes > al {
+			g.dist["burst-above-allowance"]++
+			g.monfail("sendmode/burst-above-allowance", fmt.Sprintf("%d bytes released under SendMode=any at the single instant t=%d, the pacer's burst allowance is %d (cwnd %d)", g.instBytes, g.now, al, g.v.Cwnd()))
+		}
+	}
+	g.lastMode = -1
 	pn := g.v.PopPN(enc) // the handler's own generator (it skips numbers in the 1-RTT space)
 	g.tr("(sent t=%d enc=%d pn=%d size=%d ae=%v)", g.now, enc, pn, size, eliciting)
 	g.v.Sent(g.now, pn, enc, size, eliciting)
@@ -305,6 +345,86 @@ func (g *smGen) step() {
 	}
 }
 
+// ackPns acknowledges exactly the given packet numbers (ascending) of one space.
+func (g *smGen) ackPns(enc int, pns []int64) {
+	var ranges [][2]int64
+	acked := map[int64]bool{}
+	for i := len(pns) - 1; i >= 0; i-- {
+		acked[pns[i]] = true
+		if n := len(ranges); n > 0 && ranges[n-1][0] == pns[i]+1 {
+			ranges[n-1][0] = pns[i]
+		} else {
+			ranges = append(ranges, [2]int64{pns[i], pns[i]})
+		}
+	}
+	g.tr("(ack t=%d enc=%d %v)", g.now, enc, ranges)
+	g.event("ACK", func() error { return g.v.Ack(g.now, enc, ranges, 0) })
+	g.dist["ack"]++
+	g.resync(enc, acked)
+}
+
+// burstAtOneInstant: the application has a lot to send: as many full-size 1-RTT packets as SendMode allows, all at g.now.
+func (g *smGen) burstAtOneInstant(limit int) (pns []int64) {
+	for i := 0; i < limit && g.observe() == smSendAny; i++ {
+		g.send(2, g.mds, true)
+		pns = append(pns, g.out[2][len(g.out[2])-1].pn)
+	}
+	return pns
+}
+
+// ptoThenBurst: handshake confirmed; one burst sent and acknowledged; a tail packet whose ACK does
+// not arrive: the 1-RTT PTO fires, the probe packets are sent and acknowledged (the PTO episode is
+// over); later the application wants to send far more than one pacer burst at a single instant.
+func (g *smGen) ptoThenBurst() {
+	r := g.r
+	for e := 0; e < 2; e++ {
+		if !g.dropped[e] {
+			g.tr("(drop enc=%d)", e)
+			g.v.DropPackets(e, g.now)
+			g.dropped[e] = true
+			g.out[e] = nil
+		}
+	}
+	if !g.dropped[2] && len(g.out[2]) == 0 {
+		if pns := g.burstAtOneInstant(r.Range(3, 14)); len(pns) > 0 {
+			g.now += int64(r.Range(20, 120)) * 1_000_000
+			g.ackPns(2, pns)
+		}
+	}
+	g.now += int64(r.Range(200, 1500)) * 1_000_000
+	if g.observe() != smSendAny {
+		return
+	}
+	g.send(2, g.mds, true) // the tail packet
+	t := g.v.LossTimeout()
+	if t == 0 {
+		return
+	}
+	if t > g.now {
+		g.now = t
+	}
+	g.tr("(timer t=%d)", g.now)
+	g.event("loss-timer", func() error { return g.v.OnLossTimeout(g.now) })
+	g.dist["timer"]++
+	var probes []int64
+	for i := 0; i < 2 && g.observe() == smSendPTOAppData; i++ {
+		g.send(2, int64(r.Range(60, int(g.mds))), true)
+		probes = append(probes, g.out[2][len(g.out[2])-1].pn)
+	}
+	if len(probes) == 0 {
+		return
+	}
+	g.now += int64(r.Range(20, 120)) * 1_000_000
+	g.ackPns(2, probes)
+	g.out[2] = nil // the tail packet is now lost (packet threshold) or still pending; forget it
+	g.now += int64(r.Range(100, 2000)) * 1_000_000
+	n := len(g.burstAtOneInstant(45))
+	g.dist["pto-then-burst"]++
+	if n > 10 {
+		g.dist["pto-then-burst-above-10-packets"]++
+	}
+}
+
 // handshakeFlightLoss: a server sends its Handshake flight (pn 0..k) followed by 1-RTT
 // packets (pn 0..j), the head of the flight is lost, the client acknowledges its tail.
 func (g *smGen) handshakeFlightLoss(k, j int) {
@@ -358,6 +478,14 @@ func runSendMode(w *bufio.Writer, seed uint64, n int, _ []string) {
 			g.mds = 1280
 			g.trace = []string{"(new mds=1280 server=true validated=true)"}
 			g.handshakeFlightLoss(5, 0)
+		} else if ci == 1 {
+			// fixed second case: PTO episode in the 1-RTT space, then a large burst
+			g.v = ackhandler.VerifC20NewSPH(1200, true, true)
+			g.mds = 1200
+			g.trace = []string{"(new mds=1200 server=true validated=true)"}
+			g.ptoThenBurst()
+		} else if r.Chance(1, 8) {
+			g.ptoThenBurst()
 		} else if r.Chance(1, 10) {
 			g.handshakeFlightLoss(r.Range(3, 8), r.Range(0, 2))
 		}
